@@ -263,7 +263,15 @@ func runBatch(t *testing.T) {
 	seenClass := map[string]int{}
 	stride := max(1, *fStride)
 	lastProgress := time.Time{}
+	curIdx := 0
+	Heartbeat = func() {
+		if time.Since(lastProgress) > 500*time.Millisecond {
+			_ = os.WriteFile(progress, []byte(fmt.Sprint(curIdx)), 0o644)
+			lastProgress = time.Now()
+		}
+	}
 	for idx := *fFrom; idx < *fTo; idx += stride {
+		curIdx = idx
 		if *fBudget > 0 && time.Since(start).Seconds() > *fBudget {
 			w.CutShort = true
 			break
